@@ -324,8 +324,10 @@ func builtinUnescape(input string) string {
 				}
 			}
 		}
-		output = append(output, rune(input[index]))
-		index++
+		// Copy the whole character, not its first UTF-8 byte.
+		chr, width := utf8.DecodeRuneInString(input[index:])
+		output = append(output, chr)
+		index += width
 	}
 	return string(output)
 }
